@@ -217,6 +217,7 @@ type Exec struct {
 	safetyOrd     map[string]int // instruction -> ordinal naming
 	safetyNames   map[ssa.Instruction]string
 	raceTimeout   int
+	ensGuard      map[string]int
 	inlineDepth   int
 	covers        int // number of paths reaching a normal return with sat-possible pc
 	returnPaths   int
